@@ -6,10 +6,10 @@
 From IV Require Import Base.Bytes Model.Policy Model.Smtp.
 
 (** EventBroker.Emit: listeners in registration order, the first non-nil result wins. *)
-Fixpoint emit {E R : Type} (ls : list (E -> option R)) (e : E) : option R :=
+Fixpoint broker_emit {E R : Type} (ls : list (E -> option R)) (e : E) : option R :=
   match ls with
   | [] => None
-  | l :: ls' => match l e with Some r => Some r | None => emit ls' e end
+  | l :: ls' => match l e with Some r => Some r | None => broker_emit ls' e end
   end.
 
 (** What calling a Lua handler (CallByParam with Protect) produced. *)
